@@ -191,8 +191,8 @@ def check (l : Limiter) (dAddr : Hex) (dTotal : Int) (diff : Int) (apply : Bool)
   match u2 with
   | .panic s => .panic s
   | .ok u2 =>
-  if l.base = 0 then .panic "limiter: division by zero (updatable)" else
-  if l.upd < Int.tdiv (u2 * 100) l.base then .reject "updatable" else
+  -- since repair d838d29 a zero base means "no ratio to exceed" instead of a division by zero
+  if l.upd < (if l.base > 0 then Int.tdiv (u2 * 100) l.base else 0) then .reject "updatable" else
   if objPower + diff < 0 then .reject "negative" else
   if !apply then .ok l else
   let objs' : List (Hex × Int) := if (l.objs.any (·.1 == dAddr)) then (l.objs.map fun o => if o.1 == dAddr then (o.1, o.2 + diff) else o) else l.objs
